@@ -145,6 +145,10 @@ pub struct PeerPlan {
     /// replaced by values derived from `salt` (0 = truthful)
     pub lie_from: u64,
     pub lie_salt: u64,
+    /// check points only: the number of check points lied about, after which the vector is
+    /// truthful again (0 = all from `lie_from` on)
+    #[serde(default)]
+    pub lie_span: u64,
 }
 
 impl Default for PeerPlan {
@@ -162,6 +166,7 @@ impl Default for PeerPlan {
             mutations: Vec::new(),
             lie_from: 0,
             lie_salt: 0,
+            lie_span: 0,
         }
     }
 }
